@@ -5,6 +5,8 @@ from ackmodel import AckModel, worker_root
 import c11
 
 WITNESSES = ['W6ExecutorUnreachable']
+from sym import ipaths
+
 LEVEL = "proof"
 EXPLANATION = ("Flag-first table over the public API of the cache type (every call that touches cache state is "
                "dominated by the false edge of the shutdown-flag check and the true edge returns the refusal value "
@@ -96,66 +98,79 @@ def run(ctx):
             ctx.ok("R13.1", "%s|exempt" % name, "exempt from the flag-first rule: %s" % EXEMPT[mname], f.where())
             continue
         pending.append((name, f))
-    # forwarding needs the set of flag-first methods: iterate to fixpoint
+    # forwarding needs the set of flag-first methods: iterate to fixpoint.  Judged on path-sensitive paths with the cache
+    # type's own private helpers and closures inlined (a `with_check(|| ..)` helper, an extracted guard clause, an early
+    # return and a combinator chain all look the same); other public methods and everything outside the type stay opaque
+    method_names = {n for n, f, it in methods}
+
+    def is_flag_expr(e):
+        return e[0] == "call" and (e[1] in load_fns or ("Atomic::<bool>::load" in e[1] and e[2] and e[2][0][0] == "field" and e[2][0][2] == FLAG))
     verdicts = {}
     for _ in range(4):
         for name, f in pending:
-            fe, te = flag_edges(f)
-            bad = []
-            n_eff = 0
-            closures = [c for c in F.closures_of(f)]
-            bodies = [(f, fe)] + [(c, []) for c in closures]
-            for g, gfe in bodies:
-                for bb, t in g.calls():
-                    eff = site_effects(F, g, bb)
-                    if not is_effectful(eff):
+            def stop(n, me=name):
+                if n in load_fns or (n in method_names and n != me):
+                    return True
+                g = F.fns.get(n)
+                return not (g is not None and (g.kind == "Closure" or (g.rec.get("self_ty") or "").startswith(cname)))
+            paths = ipaths(F, f, stop=stop, depth=2)
+            bad, refuse_bad, vals = [], [], set()
+            eff_sites = set()
+            has_check = False
+            seen_fns = set()
+            for p in paths:
+                flags = [a for a in p.atoms if a[0] == "bool" and is_flag_expr(a[1])]
+                has_check = has_check or bool(flags)
+                for e in p.events:
+                    seen_fns.add(e.fn.name)
+                    if e.log or is_flag_expr(e.res) or not is_effectful(site_effects(F, e.fn, e.bb)):
                         continue
-                    n_eff += 1
-                    if t.get("rpath") in flag_first:
+                    eff_sites.add((e.fn.name, e.bb))
+                    if e.callee in flag_first:
                         continue          # forwards to a method that tests the flag itself
-                    if g is f and gfe and bb not in f.reach([0], avoid_edges=gfe):
-                        continue          # dominated by 'flag observed false'
-                    if g is not f:
-                        # closure body: its creation site in f must be dominated by the flag check
-                        made = [b for b in sorted(f.live_blocks()) for s in f.blocks[b]["stmts"]
-                                if s["k"] == "assign" and s["rv"]["k"] == "agg" and s["rv"].get("closure") == g.name]
-                        if made and fe and all(b not in f.reach([0], avoid_edges=fe) for b in made):
-                            continue
-                    bad.append((g, bb, t))
-            # the true edge refuses without effects
-            refuse_bad = []
-            for (sb, tt) in te:
-                region = f.reach([tt])
-                for b in region:
-                    t = f.term(b)
-                    if t["k"] == "call" and is_effectful(site_effects(F, f, b)):
-                        refuse_bad.append(b)
-            verdicts[name] = (f, bad, refuse_bad, n_eff, bool(fe))
-            if not bad and (fe or n_eff == 0):
+                    if any((not a[2]) and a[4] < e.seq for a in flags):
+                        continue          # the flag was observed false before
+                    bad.append((e.fn, e.bb, e.t))
+                set_ = [a for a in flags if a[2]]
+                if set_:
+                    for e in p.events:
+                        if not e.log and e.seq > set_[0][4] and not is_flag_expr(e.res) and is_effectful(site_effects(F, e.fn, e.bb)):
+                            refuse_bad.append(e.where())
+                    v = p.ret_variant()
+                    r = p.ret
+                    if not v and r[0] == "call" and r[1] in F.fns:
+                        # a local helper building the refusal value: look at what it returns
+                        vs = {q.ret_variant() for q in ipaths(F, F.fns[r[1]], stop=lambda n_: False, depth=1)}
+                        if len(vs) == 1 and None not in vs:
+                            v = vs.pop()
+                    vals.add(v[0] if v else (r[1].split("::")[-1] if r[0] == "call" else fmt(r)[:30]))
+            # closures the paths did not run (handed to iterator adaptors ..): their creation site must follow the check
+            fe, te = flag_edges(f)
+            for c in F.closures_of(f):
+                if c.name in seen_fns:
+                    continue
+                for bb, t in c.calls():
+                    if not is_effectful(site_effects(F, c, bb)):
+                        continue
+                    eff_sites.add((c.name, bb))
+                    if t.get("rpath") in flag_first:
+                        continue
+                    made = [b for b in sorted(f.live_blocks()) for s_ in f.blocks[b]["stmts"]
+                            if s_["k"] == "assign" and s_["rv"]["k"] == "agg" and s_["rv"].get("closure") == c.name]
+                    if made and fe and all(b not in f.reach([0], avoid_edges=fe) for b in made):
+                        continue
+                    bad.append((c, bb, t))
+            verdicts[name] = (f, bad, refuse_bad, len(eff_sites), has_check, vals)
+            if not bad and (has_check or not eff_sites):
                 flag_first.add(name)
-    for name, (f, bad, refuse_bad, n_eff, has_check) in sorted(verdicts.items()):
+    for name, (f, bad, refuse_bad, n_eff, has_check, vals) in sorted(verdicts.items()):
         ctx.touch(f)
         ctx.check(not bad, "R13.1", "%s|flag-first" % name,
                   "every call that touches cache state (store, queues, pool, locks) is made only after the shutdown flag was observed false, or forwards to a method that does so (%d effectful call sites)" % n_eff,
                   f.where(), "; ".join("%s calls %s at %s" % (g.name.split("::")[-1], t.get("rpath") or t["callee"], g.where(bb)) for g, bb, t in bad[:3]))
         if has_check:
             ctx.check(not refuse_bad, "R13.1", "%s|refusal-effect-free" % name,
-                      "after observing the flag set the method returns without touching cache state", f.where(),
-                      str([f.where(b) for b in refuse_bad[:3]]))
-            # refusal value
-            fe, te = flag_edges(f)
-            vals = set()
-            for p in enum_paths(f):
-                if any((a, b) in te for a, b in zip(p, p[1:])):
-                    r = path_return(f, p)
-                    v = ret_variant(r)
-                    if not v and r[0] == "call" and r[1] in F.fns:
-                        # a local helper building the refusal value: look at what it returns
-                        g = F.fns[r[1]]
-                        vs = {ret_variant(path_return(g, q)) for q in enum_paths(g)}
-                        if len(vs) == 1 and None not in vs:
-                            v = vs.pop()
-                    vals.add(v[0] if v else (r[1].split("::")[-1] if r[0] == "call" else fmt(r)[:30]))
+                      "after observing the flag set the method returns without touching cache state", f.where(), str(refuse_bad[:3]))
             ctx.check(vals <= {"Err", "None", "new"} and vals, "R13.1", "%s|refusal-value" % name,
                       "the refusal value is Err(..) / None / an empty map", f.where(), str(sorted(vals)))
     n_checked = len([1 for n, v in verdicts.items() if v[4]])
